@@ -13,10 +13,14 @@ P = dict(
     level="exploration",
     level_text=("Differential runtime monitoring: every public operation of etl::static_set / etl::flat_set (insert x lvalue/rvalue/hint/range/sorted_unique, "
                 "emplace, emplace_hint, erase x key/iterator/const_iterator/range, clear, swap, extract, replace, erase_if, all constructors, copy/move, "
-                "find/contains/count/lower_bound/upper_bound/equal_range incl. heterogeneous keys, relational operators, iteration) is executed from EVERY "
+                "find/contains/count/lower_bound/upper_bound/equal_range incl. heterogeneous keys equivalent to 0, 1 or several stored elements, relational "
+                "operators, iteration, comparator observers) is executed from EVERY "
                 "set over a 6-key universe that fits capacity 1/3/4 with EVERY key / position / position range / small argument range, and in seeded "
                 "40-step histories at capacity 3/4/16, under ASan+UBSan with contract checks on; after each step the iteration order is checked to be strictly "
-                "ascending under the comparator (independently of the model) and size, content, return values are compared with std::set<int,Cmp>. "
+                "ascending under the comparator (independently of the model) and size, content, return values are compared with std::set<int,Cmp> "
+                "(transparent, so heterogeneous lookups use std::set's own K overloads). A comparator type with run-time state is carried through copy/move "
+                "construction and assignment, swap, the (comp) constructors, extract/replace and every modifier; the state of key_comp()/value_comp() is compared "
+                "with the model's comparator object after every step. "
                 "flat_multiset is constructed from every sequence up to length 4-5 over 4-5 keys (plus random longer ones) and compared with the sorted multiset. "
                 "Held means no divergence, sanitizer report, lifetime error or spurious contract firing on the executions counted in the evidence; "
                 "it is not a proof for larger capacities or other key types."),
@@ -26,7 +30,8 @@ P = dict(
     rule=("enumerated case = (subject configuration, start set S over the universe {1..6} with |S| <= capacity, operation family); inside a case the family's "
           "operation is applied to a freshly built S (built through insert, in four different orders) once for every argument: every key 0..7, every "
           "iterator position, every iterator pair, every hint position, every key sequence of length <= 3 (range insert), every predicate over the universe "
-          "(erase_if), every other set T (swap, replace, assignment, relational operators), every permutation of S with one duplicate (constructors). "
+          "(erase_if), every other set T (swap, replace, assignment, relational operators; for the stateful comparator T in both comparator states), every "
+          "permutation of S with one duplicate (constructors), every heterogeneous range key [lo,hi] over 0..7 (matches 0, 1 or several elements). "
           "Random case = one 40-operation history. One evaluation = one tetl call whose result and resulting state were compared with the std::set model. "
           "Distinct = distinct hash of (configuration, set before, overload, arguments); non-trivial = the set is non-empty or the operation modifies it."),
     units=[
@@ -47,6 +52,9 @@ P = dict(
         u("C09_sset_equal_range", 6, thorough=("asan-cc",), qs=2, ts=2),
         u("C09_fset_insert_sorted_unique", 7, thorough=("asan-cc",), qs=2, ts=2),
         u("C09_fset_tracked", 8, thorough=("asan-cc",)),
+        # comparator with run-time state (dir_less{descending}, default constructible, transparent): flat_set over static_vector<3/4/16> and
+        # vec_like[4] in BOTH states of the stored comparator object, static_set<int,4,dir_less> (always the default state)
+        u("C09_stateful_cmp", 9, thorough=("asan-cc",), qs=8, ts=8),
     ],
     floor={"quick": 3000000, "thorough": 30000000},
     assumptions=["libstdc++ 12 std::set / std::multiset are correct references",
